@@ -1139,6 +1139,8 @@ def execute(plan, armed, localise=True):
         "violation": v.as_dict() if v is not None else None,
         "soft": [s.as_dict() for s in run.soft.values()],
         "stats": run.stats, "probes": run.probes,
+        "faults": dict(("rejected-operation:" + k.split(":", 1)[1], v) for k, v in run.stats.items()
+                       if k.startswith("rejected:")),
         "states": set("%s:%s" % (shape, s) for s in run.states) if _is_nontrivial(run) else set(),
         "digest": run.log.hexdigest(), "trace": run.trace, "steps": run.stats.get("ops", 0),
         "nontrivial": _is_nontrivial(run),
